@@ -27,9 +27,12 @@ type idxCfg struct {
 	client [][]abs.CKey
 }
 
-func condConfigs(g map[string]string, mapKey interface{}) []idxCfg {
+func condConfigs(g map[string]string, mapKey, mapKey2 interface{}) []idxCfg {
 	key := fmt.Sprint(mapKey)
+	key2 := fmt.Sprint(mapKey2)
 	return []idxCfg{
+		// one client index over two keys of the map: two conditions, one per key, make up its value
+		{name: "clientMK12", client: [][]abs.CKey{{{Col: g["m"], Key: key}, {Col: g["m"], Key: key2}}}},
 		{name: "none"},
 		{name: "schemaA", schema: [][]string{{g["a"]}}},
 		{name: "clientA", client: [][]abs.CKey{{{Col: g["a"]}}}},
@@ -88,11 +91,13 @@ func (e *Env) RunCond(c CCase, emit func(map[string]interface{}) error) error {
 		}
 		keyCol := e.Ctx.Abs.Tables["D"].Cols[g["m"]]
 		mapKey := atomOf(keyCol.Key.T, 1)
+		mapKey2 := atomOf(keyCol.Key.T, 2)
 		if keyCol.Key.T == "uuid" {
 			mapKey = e.Ctx.Tok.ToReal(mapKey.(string))
+			mapKey2 = e.Ctx.Tok.ToReal(mapKey2.(string))
 		}
-		for _, cfg := range condConfigs(g, mapKey) {
-			if keyCol.Key.T == "integer" && cfg.name == "clientMK" {
+		for _, cfg := range condConfigs(g, mapKey, mapKey2) {
+			if keyCol.Key.T == "integer" && (cfg.name == "clientMK" || cfg.name == "clientMK12") {
 				continue // client index keys are given as Go values of the key type; keep to string-like keys
 			}
 			ce, err := getCondEnv(gname, cfg)
